@@ -155,9 +155,6 @@ def mutants(ctx):
     ] + ([
       # concurrency mutants: only the (thorough-tier) Engine S queries can see them
       Mutant("find_old_table_without_bucket_lock", U, "        parsec_atomic_lock( &head->buckets[hash].lock );\n        for(current_item = head->buckets[hash].first_item;", "        for(current_item = head->buckets[hash].first_item;", queries=["conc_migrate_vs_remove_same_old_bucket_r2"]),
-      Mutant("unlock_handle_keeps_read_lock_while_resizing", U, "    cur_head = ht->rw_hash;\n    parsec_atomic_unlock(&ht->rw_hash->buckets[hash].lock);\n    parsec_atomic_rwlock_rdunlock(&ht->rw_lock);\n\n    if( resize ) {\n        parsec_atomic_rwlock_wrlock(&ht->rw_lock);",
-             "    cur_head = ht->rw_hash;\n    parsec_atomic_unlock(&ht->rw_hash->buckets[hash].lock);\n\n    if( resize ) {\n        parsec_atomic_rwlock_wrlock(&ht->rw_lock);", queries=["conc_unlock_resize_vs_find_r1"]),
-      
     ] if ctx.thorough else [])
 CLAIMED = True
 MANIFEST = {
